@@ -683,12 +683,19 @@ func (s *Sim) opC06Slash() {
 			}
 		}
 	}
+	// correlated faults: further, different validators slashed at the start of the same block
+	// (correlated downtime, several pieces of double-sign evidence in one block). Drawn on their own
+	// stream so that the choices of the first slash keep their meaning on recorded tapes.
+	extras := s.c06PlanExtraSlashes(v, newH)
 	st.blockEvents = map[string]int{c06Val(v).String(): 1}
 	nRed := 0
 	hookFlag := s.K.Dualstaking.GetDisableDualstakingHook(s.Ctx)
 	st.slashRedelSuppressed = map[string]bool{}
-	if infr < newH {
-		for _, red := range s.K.StakingKeeper.GetRedelegationsFromSrcValidator(s.Ctx, c06Val(v)) {
+	countRedelegations := func(who *Account, infr int64) {
+		if infr >= newH {
+			return
+		}
+		for _, red := range s.K.StakingKeeper.GetRedelegationsFromSrcValidator(s.Ctx, c06Val(who)) {
 			for _, e := range red.Entries {
 				if e.CreationHeight >= infr {
 					st.blockEvents[red.ValidatorDstAddress]++
@@ -700,24 +707,47 @@ func (s *Sim) opC06Slash() {
 			}
 		}
 	}
+	countRedelegations(v, infr)
+	for _, x := range extras {
+		st.blockEvents[c06Val(x.v).String()]++
+		countRedelegations(x.v, x.infr)
+	}
 	before := val.Tokens
 	dt := s.BlockTimeDefault() / 2
 	r.Logf("c06_slash %s begins: fraction=%s power=%d infraction=%d new height=%d jail=%v status=%s hookflag=%v", v.Name, frac, power, infr, newH, jail, val.Status, s.K.Dualstaking.GetDisableDualstakingHook(s.Ctx))
+	for _, x := range extras {
+		r.Logf("   in the same block also %s: fraction=%s power=%d infraction=%d jail=%v status=%s tokens=%s", x.v.Name, x.frac, x.power, x.infr, x.jail, x.val.Status, x.val.Tokens)
+	}
 	s.c06BlockWith(dt, func(ctx sdk.Context) {
 		s.K.SlashingKeeper.Slash(ctx, consAddr, frac, power, infr)
 		if jail {
 			s.K.SlashingKeeper.Jail(ctx, consAddr)
 		}
+		for _, x := range extras {
+			s.K.SlashingKeeper.Slash(ctx, x.consAddr, x.frac, x.power, x.infr)
+			if x.jail {
+				s.K.SlashingKeeper.Jail(ctx, x.consAddr)
+			}
+		}
 		st.slashBalErr = map[string]string{}
 		st.slashHeight = ctx.BlockHeight()
-		for _, d := range s.K.StakingKeeper.GetValidatorDelegations(ctx, c06Val(v)) {
-			cctx, _ := ctx.CacheContext()
-			if _, berr := s.K.Dualstaking.BalanceDelegator(cctx, d.GetDelegatorAddr()); berr != nil {
-				st.slashBalErr[d.DelegatorAddress] = c06ErrKind(berr)
-				r.Probe("c06_slash_rebalance_error")
-				r.Logf("   (diagnosis) BalanceDelegator(%s) right after the slash would fail: %s", s.NameOf(d.DelegatorAddress), c06ErrKind(berr))
-				if debugOn {
-					r.Logf("      [dbg] %v", berr)
+		slashed := []*Account{v}
+		for _, x := range extras {
+			slashed = append(slashed, x.v)
+		}
+		for _, sv := range slashed {
+			for _, d := range s.K.StakingKeeper.GetValidatorDelegations(ctx, c06Val(sv)) {
+				if _, done := st.slashBalErr[d.DelegatorAddress]; done {
+					continue
+				}
+				cctx, _ := ctx.CacheContext()
+				if _, berr := s.K.Dualstaking.BalanceDelegator(cctx, d.GetDelegatorAddr()); berr != nil {
+					st.slashBalErr[d.DelegatorAddress] = c06ErrKind(berr)
+					r.Probe("c06_slash_rebalance_error")
+					r.Logf("   (diagnosis) BalanceDelegator(%s) right after the slash would fail: %s", s.NameOf(d.DelegatorAddress), c06ErrKind(berr))
+					if debugOn {
+						r.Logf("      [dbg] %v", berr)
+					}
 				}
 			}
 		}
@@ -729,6 +759,28 @@ func (s *Sim) opC06Slash() {
 	r.Fault("validator_slash")
 	if jail {
 		r.Fault("validator_jail")
+	}
+	// vacuity probes of the several-validators-in-one-block dimension
+	nLost := 0
+	if after.LT(before) {
+		nLost++
+	}
+	for _, x := range extras {
+		r.Fault("validator_slash")
+		if x.jail {
+			r.Fault("validator_jail")
+		}
+		xa := math.ZeroInt()
+		if v2, ok := s.K.StakingKeeper.GetValidator(s.Ctx, c06Val(x.v)); ok {
+			xa = v2.Tokens
+		}
+		if xa.LT(x.val.Tokens) {
+			nLost++
+		}
+		r.Logf("   same block: %s tokens %s->%s", x.v.Name, x.val.Tokens, xa)
+	}
+	if nLost >= 2 {
+		r.Probe("c06_several_validators_slashed_in_one_block")
 	}
 	if after.LT(before) {
 		if users > 0 {
@@ -746,6 +798,77 @@ func (s *Sim) opC06Slash() {
 	}
 	r.Op("c06_slash", "ok")
 	r.Logf("c06_slash %s fraction=%s power=%d infraction=%d (new height %d) jail=%v tokens %s->%s users=%d providerUsers=%d redelegationEntries=%d", v.Name, frac, power, infr, newH, jail, before, after, users, providerUsers, nRed)
+}
+
+// c06ExtraSlash is one further validator slashed at the start of the same block as the first one.
+type c06ExtraSlash struct {
+	v        *Account
+	val      stakingtypes.Validator
+	consAddr sdk.ConsAddress
+	frac     sdk.Dec
+	power    int64
+	infr     int64
+	jail     bool
+}
+
+// c06PlanExtraSlashes draws (stream "slash2"; an exhausted tape means none) up to two further
+// validators, different from the first and from each other, that are slashed in the same block.
+func (s *Sim) c06PlanExtraSlashes(first *Account, newH int64) []c06ExtraSlash {
+	r := s.R
+	st := s.c06St()
+	n := 0
+	switch r.Draw("slash2", 6) {
+	case 3, 4:
+		n = 1
+	case 5:
+		n = 2
+	}
+	var out []c06ExtraSlash
+	taken := map[*Account]bool{first: true}
+	for i := 0; i < n; i++ {
+		var cands []*Account
+		for _, c := range s.Validators {
+			if taken[c] {
+				continue
+			}
+			if val, found := s.K.StakingKeeper.GetValidator(s.Ctx, c06Val(c)); found && !val.IsUnbonded() && val.Tokens.IsPositive() {
+				cands = append(cands, c)
+			}
+		}
+		if len(cands) == 0 {
+			break
+		}
+		c := cands[r.Draw("slash2", len(cands))]
+		taken[c] = true
+		val, _ := s.K.StakingKeeper.GetValidator(s.Ctx, c06Val(c))
+		x := c06ExtraSlash{v: c, val: val}
+		x.frac = sdk.MustNewDecFromStr(c06Fractions[r.Draw("slash2", len(c06Fractions))])
+		x.jail = r.Chance("slash2", 1, 3) && !val.IsJailed()
+		back := []int64{0, 2, 1, 3, 5, 10, 30, 100}[r.Draw("slash2", 8)]
+		x.infr = newH - back
+		if x.infr < 1 {
+			x.infr = 1
+		}
+		// the contract of Slash: the infraction is not older than the unbonding period
+		for x.infr < newH {
+			t, ok := st.blockTime[x.infr]
+			if ok && s.Now().Sub(t) < s.K.StakingKeeper.UnbondingTime(s.Ctx)-2*MaxBlockGap {
+				break
+			}
+			x.infr = newH
+		}
+		consAddr, err := val.GetConsAddr()
+		if err != nil {
+			panic(err)
+		}
+		x.consAddr = consAddr
+		x.power = sdk.TokensToConsensusPower(val.Tokens, s.K.StakingKeeper.PowerReduction(s.Ctx))
+		if r.Chance("slash2", 1, 4) {
+			x.power = x.power / int64(1+r.Draw("slash2", 4))
+		}
+		out = append(out, x)
+	}
+	return out
 }
 
 // c06ErrKind maps an error of the balancing code to a stable short class.
@@ -1036,7 +1159,7 @@ func init() {
 	AddOp("c06_multi", (*Sim).opC06Multi)
 	AddOp("c06_slash", (*Sim).opC06Slash)
 	simrt.Register("C06", &simrt.PropSpec{Fn: runC06, NonTrivial: c06NonTrivial,
-		Rule: "tape-generated histories interleaving staking-module Delegate/Undelegate/BeginRedelegate/CancelUnbondingDelegation/CreateValidator/Unjail with dual-staking Delegate/Redelegate/Unbond/ClaimRewards and pairing Stake/Modify/MoveStake/Unstake (amounts mostly picked from what the actor really holds), multi-message transactions, and validator slashes (fraction, infraction height in the past, optional jail) executed at the start of a block before dualstaking's BeginBlock; every transaction first passes the real redelegation ante flagger. After every transaction and every block, for every account with a delegation on either side: |sum of provider delegations incl. empty provider - sum of token value of validator shares| <= (validators used + share-moving events on those validators since the delegator was last exactly balanced); no provider delegation negative; VerifyDelegatorBalance agrees with the independent computation up to rounding. Non-trivial = >=12 accepted operations incl. >=2 staking-module and >=2 dual-staking delegation changes and a provider stake",
+		Rule: "tape-generated histories interleaving staking-module Delegate/Undelegate/BeginRedelegate/CancelUnbondingDelegation/CreateValidator/Unjail with dual-staking Delegate/Redelegate/Unbond/ClaimRewards and pairing Stake/Modify/MoveStake/Unstake (amounts mostly picked from what the actor really holds), multi-message transactions, and validator slashes (fraction, infraction height in the past, optional jail; in some blocks two or three different validators are slashed, as with correlated downtime or several pieces of evidence) executed at the start of a block before dualstaking's BeginBlock; every transaction first passes the real redelegation ante flagger. After every transaction and every block, for every account with a delegation on either side: |sum of provider delegations incl. empty provider - sum of token value of validator shares| <= (validators used + share-moving events on those validators since the delegator was last exactly balanced); no provider delegation negative; VerifyDelegatorBalance agrees with the independent computation up to rounding. Non-trivial = >=12 accepted operations incl. >=2 staking-module and >=2 dual-staking delegation changes and a provider stake",
 		Real:    chainReal, Stubbed: chainStub,
 		Assume: append(append([]string{}, chainAssume...), "validator slashes/jails are injected by calling the real x/slashing keeper at the start of a block (the position of x/slashing and x/evidence in the app's begin-blocker order, before dualstaking); CometBFT evidence and missed-signature tracking are not simulated", "slash contract respected: validator not unbonded, infraction height within the unbonding period and not in the future")})
 }
